@@ -84,6 +84,58 @@ func recC07(c *ctx) {
 			sm(scal(), u)
 		}
 	}
+	// outputs with sparse byte support: the all-zero test of the checked entry point must look at every byte.
+	// For each window (single bytes, aligned 4- and 8-byte words) a target u that is zero outside the window is
+	// drawn until it lies in a prime-order subgroup (curve or twist); the input is [k^-1]target.
+	clampInt := func(sc []byte) *big.Int {
+		b := append([]byte(nil), sc...)
+		b[0] &= 248
+		b[31] = (b[31] & 127) | 64
+		return vt.FromLE(b)
+	}
+	var windows [][2]int
+	for i := 0; i < 32; i++ {
+		windows = append(windows, [2]int{i, 1})
+	}
+	for i := 0; i < 32; i += 4 {
+		windows = append(windows, [2]int{i, 4})
+	}
+	for i := 0; i < 32; i += 8 {
+		windows = append(windows, [2]int{i, 8})
+	}
+	wstep := 1
+	if c.tier != "thorough" {
+		wstep = 2
+	}
+	for wi := r.Intn(wstep); wi < len(windows); wi += wstep {
+		win := windows[wi]
+		sc := scal()
+		k := clampInt(sc)
+		for try := 0; try < 400; try++ {
+			t := make([]byte, 32)
+			copy(t[win[0]:win[0]+win[1]], r.Bytes(win[1]))
+			if win[0]+win[1] == 32 {
+				t[31] &= 0x7f
+			}
+			tv := vt.FromLE(t)
+			if tv.Sign() == 0 || tv.Cmp(vt.P) >= 0 {
+				continue
+			}
+			if in, ok := vt.PreimageForOutput(k, tv); ok {
+				x(sc, vt.LE(in, 32))
+				if wi%3 == 0 {
+					sm(sc, vt.LE(in, 32))
+				}
+				break
+			}
+		}
+	}
+	// the package-level Basepoint slice itself (the fixed-base shortcut is keyed on its identity) with every kind of
+	// scalar length, and copies of it
+	for _, l := range []int{0, 1, 16, 31, 32, 33, 64} {
+		x(r.Bytes(l), x25519.Basepoint)
+		x(r.Bytes(l), append([]byte(nil), x25519.Basepoint...))
+	}
 	// length errors
 	for _, ls := range [][2]int{{0, 32}, {31, 32}, {33, 32}, {32, 0}, {32, 31}, {32, 33}, {64, 64}} {
 		x(r.Bytes(ls[0]), r.Bytes(ls[1]))
